@@ -14,6 +14,7 @@ import (
 	"strings"
 	"sync"
 	"testing"
+	"time"
 
 	"pgregory.net/rapid"
 )
@@ -364,6 +365,13 @@ func Run[C any](t *testing.T, p Prop[C], n int) {
 		c := p.Gen(rt)
 		before := evals()
 		f := p.Check(c)
+		for retry := 0; f != nil && f.Key == "harness.inconclusive" && retry < 2; retry++ {
+			// no verdict for a reason outside the code under test (typically an overloaded machine:
+			// goroutines runnable but not yet run, a wait that ran out): the same case again, later
+			Label("inconclusive-case-retried")
+			time.Sleep(time.Duration(retry+1) * time.Second)
+			f = p.Check(c)
+		}
 		if evals() == before {
 			Eval() // a check that does not count its own executions counts as one evaluation
 		}
